@@ -28,6 +28,10 @@ SendBackR ==
      /\ \E a \in {Pick({x \in Amts : x <= wbal[c][d]} \cup {1})} : \E cl \in {Pick(Calls)} : \E f \in {Pick(Fees)} :
            Send(c, d, "back", a, cl, f)
 
+SendViaR ==
+  \E c \in {Pick(Chains)} : \E d \in {Pick(Chains \ {c})} : \E cl \in {Pick(Calls \cap {"ok", "revert"})} :
+     seq[c][d] <= MaxSeq /\ SendVia(c, d, cl)
+
 CommitR == \E c \in {Pick(Chains)} : Commit(c)
 
 UpdateGood == \E c \in {Pick(Chains)} : \E d \in {Pick(Chains \ {c})} : UpdateClient(c, d, h[d], "relayer")
@@ -98,7 +102,7 @@ AckDup == /\ Acked # {}
 
 RetoggleR == \E c \in {Pick(Chains)} : \E d \in {Pick(Chains \ {c})} : Retoggle(c, d)
 
-Useful  == CommitUseful \/ UpdateUseful \/ RecvUseful \/ AckUseful \/ SendR \/ SendBackR
+Useful  == CommitUseful \/ UpdateUseful \/ RecvUseful \/ AckUseful \/ SendR \/ SendBackR \/ SendViaR
 Hostile == SendR \/ CommitR \/ UpdateR \/ RecvGood \/ RecvR \/ RecvDup \/ AckGood \/ AckR \/ RecvForged \/ AckForged \/ AckForgedCode \/ AckDup \/ RetoggleR
 
 MInit == Init /\ hist = << >>
